@@ -10,6 +10,6 @@ theorem snapshot_buffers_sized :
     pairsSized "F256RevBMemory" F256RevBMemory_TakeSnapshot = true := by decide
 
 -- non-vacuity: the lookups find something
-example : allocOf "X16Memory" "bankedRAM8KSnaphot" = some "ramBlocks * 8192" := by decide
+example : (X16Memory_TakeSnapshot.map fun p => allocOf "X16Memory" p.1).all Option.isSome = true := by decide
 
 end Verif.Facts
